@@ -15,7 +15,7 @@ Notation it_rep := (it_rep A).
 Lemma gen_HasPrevious cls i F : 6 <= F ->
   call_at F (it_rep cls i) id_HasPrevious [] = ROk (VBool (has_prev i), it_rep cls i).
 Proof.
-  intros HF. fuel F 6. destruct i as [l k]. unfold GenIter.it_rep, has_prev. cbn [it_vals it_slot].
+  intros HF. fuel F 6. destruct i as [l k]. unfold GenRep.it_rep, has_prev. cbn [it_vals it_slot].
   gocall. gogo. all: reflexivity.
 Qed.
 
@@ -25,7 +25,7 @@ Lemma gen_GetPrevious cls i F : wf A i -> 10 <= F ->
   ROk (VElem (fst (get_prev zero i)), it_rep cls (snd (get_prev zero i))).
 Proof.
   intros W HF. fuel F 10. destruct i as [l k]. unfold wf, it_size in W.
-  unfold GenIter.it_rep, get_prev, has_prev. cbn [it_vals it_slot] in *.
+  unfold GenRep.it_rep, get_prev, has_prev. cbn [it_vals it_slot] in *.
   gocall. gogo; cbn [fst snd it_vals it_slot].
   - rewrite (zidx_elems A zero) by lia. gorun. unfold it_val. goeq.
   - reflexivity.
@@ -34,36 +34,36 @@ Qed.
 Lemma gen_ToStart cls i F : 6 <= F ->
   call_at F (it_rep cls i) id_ToStart [] = ROk (VTuple [], it_rep cls (to_start i)).
 Proof.
-  intros HF. fuel F 6. destruct i as [l k]. unfold GenIter.it_rep, to_start. cbn [it_vals it_slot].
+  intros HF. fuel F 6. destruct i as [l k]. unfold GenRep.it_rep, to_start. cbn [it_vals it_slot].
   gocall. reflexivity.
 Qed.
 
 Lemma gen_ToEnd cls i F : 6 <= F ->
   call_at F (it_rep cls i) id_ToEnd [] = ROk (VTuple [], it_rep cls (to_end i)).
 Proof.
-  intros HF. fuel F 6. destruct i as [l k]. unfold GenIter.it_rep, to_end, it_size. cbn [it_vals it_slot].
+  intros HF. fuel F 6. destruct i as [l k]. unfold GenRep.it_rep, to_end, it_size. cbn [it_vals it_slot].
   gocall. reflexivity.
 Qed.
 
 Lemma gen_ToSlot cls i s F : 10 <= F ->
   call_at F (it_rep cls i) id_ToSlot [VInt s] = ROk (VTuple [], it_rep cls (to_slot i s)).
 Proof.
-  intros HF. fuel F 10. destruct i as [l k]. unfold GenIter.it_rep, to_slot, it_size. cbn [it_vals it_slot].
+  intros HF. fuel F 10. destruct i as [l k]. unfold GenRep.it_rep, to_slot, it_size. cbn [it_vals it_slot].
   gocall. gogo. all: unfold it_val; goeq.
 Qed.
 
 Lemma gen_GetSlot cls i F : 6 <= F ->
   call_at F (it_rep cls i) id_GetSlot [] = ROk (VInt (Z.of_nat (it_slot i)), it_rep cls i).
-Proof. intros HF. fuel F 6. destruct i as [l k]. unfold GenIter.it_rep. cbn [it_vals it_slot]. gocall. reflexivity. Qed.
+Proof. intros HF. fuel F 6. destruct i as [l k]. unfold GenRep.it_rep. cbn [it_vals it_slot]. gocall. reflexivity. Qed.
 
 Lemma gen_GetSize cls i F : 6 <= F ->
   call_at F (it_rep cls i) id_GetSize [] = ROk (VInt (Z.of_nat (it_size i)), it_rep cls i).
-Proof. intros HF. fuel F 6. destruct i as [l k]. unfold GenIter.it_rep, it_size. cbn [it_vals it_slot]. gocall. reflexivity. Qed.
+Proof. intros HF. fuel F 6. destruct i as [l k]. unfold GenRep.it_rep, it_size. cbn [it_vals it_slot]. gocall. reflexivity. Qed.
 
 Lemma gen_IsEmpty cls i F : 6 <= F ->
   call_at F (it_rep cls i) id_IsEmpty [] = ROk (VBool (it_size i =? 0), it_rep cls i).
 Proof.
-  intros HF. fuel F 6. destruct i as [l k]. unfold GenIter.it_rep, it_size. cbn [it_vals it_slot].
+  intros HF. fuel F 6. destruct i as [l k]. unfold GenRep.it_rep, it_size. cbn [it_vals it_slot].
   gocall. gogo. all: reflexivity.
 Qed.
 
@@ -131,7 +131,7 @@ Proof.
   intros HF. exists (it_slot (walk A zero (it_make l) ms)). split.
   - change (it_val cls l 0) with (it_rep cls (it_make l)).
     rewrite gen_walk_is_walk by (exact HF || apply make_wf).
-    unfold GenIter.it_rep. rewrite (C17_snapshot A zero). reflexivity.
+    unfold GenRep.it_rep. rewrite (C17_snapshot A zero). reflexivity.
   - apply C17_slot_inv.
 Qed.
 
